@@ -547,6 +547,25 @@ static void laws(const expression_t& e)
                         printf("subst_unchanged %s %d\n", s.get_name().c_str(), orig == expr_s(e));
                         printf("subst_tree %s %s\n", s.get_name().c_str(), expr_s(k).c_str());
                     }
+                    // the other two overloads of clone_deeper: renaming one symbol, and looking every symbol up by name in one or two frames
+                    std::set<symbol_t> all;
+                    for (auto& a : n1) if (a.get_kind() == Constants::IDENTIFIER && a.get_symbol() != symbol_t()) all.insert(a.get_symbol());
+                    std::vector<symbol_t> av(all.begin(), all.end());
+                    std::sort(av.begin(), av.end(), [](const symbol_t& a, const symbol_t& b) { return a.get_name() < b.get_name(); });
+                    for (auto& s : av) {
+                        printf("clone_rename_self %s %d\n", s.get_name().c_str(), e.clone_deeper(s, s).equal(e));
+                        const symbol_t& t = av[(&s - &av[0] + 1) % av.size()];
+                        printf("clone_rename_subst %s %s %d\n", s.get_name().c_str(), t.get_name().c_str(), e.clone_deeper(s, t).equal(e.subst(s, expression_t::create_identifier(t))));
+                    }
+                    if (scopes.doc) {
+                        frame_t g = scopes.doc->get_globals().frame;
+                        bool resolvable = true;
+                        for (auto& s : av) { symbol_t u; if (!g.resolve(s.get_name(), u) || u != s) resolvable = false; }
+                        if (resolvable && !av.empty()) {
+                            printf("clone_frame %d\n", e.clone_deeper(g).equal(e));
+                            printf("clone_second_frame %d\n", e.clone_deeper(frame_t::create(), g).equal(e));
+                        }
+                    }
                 
 }
 
